@@ -70,7 +70,7 @@ def run(ctx):
                'stored predictions (model_fluxes) are themselves checked against truth by C04')
     ctx.require_events('plot:call', 'curve-point:checked', 'curve-point:truth-checked')
     ctx.require_events('plot:called-with-positional-arguments')
-    ctx.require_regimes('av:negative-among-best-fits', 'mode:interp', 'mode:largest', 'mode:largest+smallest', 'mode:all', 'input:object', 'input:file', 'multi-aperture', 'single-aperture',
+    ctx.require_regimes('cube:apertures-not-stored-in-increasing-order', 'av:negative-among-best-fits', 'mode:interp', 'mode:largest', 'mode:largest+smallest', 'mode:all', 'input:object', 'input:file', 'multi-aperture', 'single-aperture',
                         'cube:asc', 'cube:desc', 'selected>=2', 'beyond-table', 'filters:unsorted', 'two-sources-share-a-model', 'filters-share-an-aperture', 'filters>=12-distinct-apertures', 'cube:unit-not-mJy', 'filters:other-unit', 'law:not-in-micron')
     n_pk = 5 if ctx.quick else 100
     for ip in range(n_pk):
@@ -99,7 +99,12 @@ def run(ctx):
         cube_unit = ['mJy', 'Jy', 'uJy'][ip % 3]          # the unit the cube is stored in (BUNIT)
         if cube_unit != 'mJy':
             ctx.regime('cube:unit-not-mJy')
-        pkg.build_v2(md, truth, aperture_dependent=aperture_dependent, logd_step=0.1, descending_wav=desc, unit=cube_unit)
+        # the aperture axis of the cube may be stored in any order (largest first, shuffled): the format does not require it increasing
+        ap_order = None
+        if truth.apertures is not None and len(truth.apertures) > 1 and ip % 3 == 1:
+            ap_order = list(range(len(truth.apertures)))[::-1] if (ip // 3) % 2 == 0 else list(rng.permutation(len(truth.apertures)))
+            ctx.regime('cube:apertures-not-stored-in-increasing-order')
+        pkg.build_v2(md, truth, aperture_dependent=aperture_dependent, logd_step=0.1, descending_wav=desc, unit=cube_unit, ap_order=ap_order)
         ctx.regime('cube:desc' if desc else 'cube:asc')
         ctx.regime('multi-aperture' if multi else 'single-aperture')
         nb = int(rng.integers(3, 5)) if not many else int(rng.integers(12, 15))
